@@ -6,7 +6,7 @@ ASSUMPTIONS = []
 
 
 def bounds(tier):
-    return {'N': 3, 'sources_k': '<=2', 'carried': '<=2', 'id_length': 1, 'id_alphabet': 'U+0020..U+007E'}
+    return {'N': 3 if tier == 'quick' else 4, 'sources_k': '<=2' if tier == 'quick' else '<=3', 'carried': '<=2', 'id_length': 1, 'id_alphabet': 'U+0020..U+007E'}
 
 
 def cells(tier):
